@@ -40,11 +40,8 @@ def r1(model, rep, r, an):
     rel = model.rel("system")
     row = an["row"]
     where = "%s:%d" % (rel, row.lineno)
-    carried, acc = sysrules.loop_carried(row)
-    ok = not carried
-    for n, line in sorted(carried.items()):
-        rep.violation("R1", "system.System.solve", "%s:%d" % (rel, line), "'%s' reaches the row loop through its back edge: a row attribute then depends on the previously emitted row, i.e. on construction order" % n, "carried " + n)
-    rep.instance("R1", "system.System.solve row loop: no loop-carried scalar", where, ok, "append-only accumulators: %s" % ", ".join(sorted(acc)))
+    sysrules.iteration_state_rule(model, rep, "R1", "system.System.solve", where, row, "row loop", parent_attr=r["PARENTS"])
+    sysrules.iteration_state_rule(model, rep, "R1", "system.System.solve", "%s:%d" % (rel, an["phase_loop"].lineno), an["phase_loop"], "phase loop")
     # Domain channel wiring
     an2, leaves, sl = sysrules.row_summary(model, r)
     pre_env = sysrules.row_pre_env(model, r)
